@@ -305,6 +305,84 @@ def sync_duration_coverage(chk):
     chk.cov["sync_duration_elements_reaching_no_group"] = lost
 
 
+def run_shared_group(case):
+    """every group is subscribed TWICE (recorders a and b) when it is handed over; the outer subscription is disposed
+    after i_out elements, all a-recorders after i_a elements; the b-recorders stay.  -> {key: (a log, b log)}"""
+    from reactivex import operators as ops
+    from reactivex.disposable import CompositeDisposable
+    from reactivex.subject import Subject
+    xs, i_out, i_a, term, until = case["xs"], case["i_out"], case["i_a"], case["term"], case["until"]
+    src = Subject()
+    logs, a_subs = {}, CompositeDisposable()
+
+    def rec(log):
+        return (lambda v: log.append(("N", v)), lambda e: log.append(("E",)), lambda: log.append(("C",)))
+
+    def on_group(g):
+        la, lb = [], []
+        logs[g.key] = (la, lb)
+        a_subs.add(g.subscribe(*rec(la)))
+        g.subscribe(*rec(lb))
+    op = (ops.group_by_until(lambda v: v % 3, None, lambda g: __import__("reactivex").never()) if until
+          else ops.group_by(lambda v: v % 3))
+    outer = src.pipe(op).subscribe(on_group, lambda e: None, lambda: None)
+    for i, v in enumerate(xs):
+        if i == i_out:
+            outer.dispose()
+        if i == i_a:
+            a_subs.dispose()
+        src.on_next(v)
+    if len(xs) <= i_out:
+        outer.dispose()
+    if len(xs) <= i_a:
+        a_subs.dispose()
+    if term == "C":
+        src.on_completed()
+    else:
+        src.on_error(RuntimeError("boom"))
+    return {k: (list(a), list(b)) for k, (a, b) in logs.items()}
+
+
+def ref_shared_group(case):
+    xs, i_out, i_a, term = case["xs"], case["i_out"], case["i_a"], case["term"]
+    exp = {}
+    for i, v in enumerate(xs):
+        k = v % 3
+        if k not in exp:
+            if i >= i_out:
+                continue                       # the outer subscriber is gone: a new group is handed to nobody
+            exp[k] = ([], [])
+        if i < i_a:
+            exp[k][0].append(("N", v))
+        exp[k][1].append(("N", v))
+    for k in exp:
+        exp[k][1].append((term,))
+    return exp
+
+
+def shared_group_scenarios(chk):
+    """oracle-only: several subscribers per group, the outer subscription disposed early, one subscriber of every
+    group leaving: the remaining subscribers still get every later element of their key and the source's terminal
+    (each group subscription holds its OWN reference on the source subscription)."""
+    n = 120 if chk.tier == "quick" else 1500
+    nontrivial = set()
+    for i in range(n):
+        m = chk.rng.randrange(2, 9)
+        case = {"xs": [chk.rng.randrange(0, 9) for _ in range(m)], "i_out": chk.rng.randrange(0, m + 2),
+                "i_a": chk.rng.randrange(0, m + 2), "term": chk.rng.choice(["C", "C", "E"]), "until": bool(i % 2)}
+        got, exp = run_shared_group(case), ref_shared_group(case)
+        chk.cov["evaluations"] += 1
+        if got != exp:
+            chk.violation(f"C19|shared-group|{'group_by_until' if case['until'] else 'group_by'}",
+                          {"shared_group_case": case, "got": repr(got), "expected": repr(exp),
+                           "oracle": "every subscriber of a group receives the elements of its key from its "
+                                     "subscription until it leaves or the source ends, whatever the other "
+                                     "subscribers and the outer subscriber do"}, size=m)
+        elif any(len(b) >= 3 for _, b in exp.values()) and case["i_out"] < m and case["i_a"] < m:
+            nontrivial.add(repr(case))
+    return nontrivial
+
+
 def run(chk):
     chk.build_and_prove()
     win_table.run_ops(chk, "C19", NAMES, ncase=(90 if chk.tier == "quick" else 1500))
@@ -315,6 +393,9 @@ def run(chk):
     nt = replay_subject_scenarios(chk)
     chk.cov["distinct_nontrivial"] += len(nt)
     chk.cov["replay_subject_scenarios_nontrivial"] = len(nt)
+    nt = shared_group_scenarios(chk)
+    chk.cov["distinct_nontrivial"] += len(nt)
+    chk.cov["shared_group_scenarios_nontrivial"] = len(nt)
     chk.cov["rule"] = ("per operator: seeded key tables (few keys / many keys / falsy keys None 0 False '' () 0.0; 5% "
                        "raising), element mappers, duration mappers (12% raising) x seeded timelines (falsy elements, "
                        "duration observables firing at arbitrary times incl. the same instant as elements, errors while "
@@ -330,6 +411,8 @@ def run(chk):
                        "self-expiring groups (duration derived from the group); subject_mapper=lambda: ReplaySubject() "
                        "with group subscribers joining late / after the end (each sees the whole content of its group); "
                        "subject_mapper returning a subject with its own truth value (falsy while it has no observers); "
+                       "groups with two subscribers each, the outer subscription disposed early and one subscriber per "
+                       "group leaving (family shared_group); "
                        "coverage only, not judged: durations firing inside their own subscribe call")
     chk.cov["operators_modelled"] = NAMES
     return chk.finish(trusted_extra=[
@@ -352,7 +435,9 @@ def run(chk):
 def replay(chk, path):
     import json
     d = json.load(open(path))
-    for key, fn in (("replay_subject_case", lambda c: check_replay_subject(c)),
+    for key, fn in (("shared_group_case", lambda c: (lambda g, e: (g == e, g, e))(run_shared_group(c),
+                                                                                  ref_shared_group(c))),
+                    ("replay_subject_case", lambda c: check_replay_subject(c)),
                     ("self_duration_case", lambda c: (lambda g, e: (g == e, g, e))(run_self_duration(c),
                                                                                    ref_self_duration(c)))):
         if key in d:
